@@ -42,6 +42,17 @@ def parse_open_wire(w):
             'my_as_field': struct.unpack('!H', body[1:3])[0]}
 
 
+def upd_in_range(body):
+    """both length fields of an UPDATE body are in range (otherwise Update.parse raises and the message is skipped: C11)"""
+    if len(body) < 4:
+        return False
+    wl = struct.unpack('!H', body[:2])[0]
+    if wl + 4 > len(body):
+        return False
+    al = struct.unpack('!H', body[2 + wl:4 + wl])[0]
+    return wl + 4 + al <= len(body)
+
+
 class Monitor(object):
     def __init__(self, res, conf, full_cfg):
         self.res = res
@@ -65,7 +76,11 @@ class Monitor(object):
         self.recv_lo = {}          # connector id -> {counter: frames certainly received and to be counted}
         self.recv_hi = {}          # connector id -> {counter: frames possibly counted}
 
+    only = None      # when set: the properties this monitor is allowed to judge (runs outside the common event alphabet)
+
     def fail(self, prop, what, key, extra=None):
+        if self.only is not None and prop not in self.only:
+            return
         rp = {'cfg': self.conf, 'events': list(self.trace)}
         if extra:
             rp.update(extra)
@@ -233,6 +248,13 @@ class Monitor(object):
                     self.last_arrival = obs['now']
         if st == 'ESTABLISHED' and k == 'chunk' and any(o[0] == 'handler' and o[1] in ('keepalive', 'update', 'update_error') for o in outs):
             self.last_arrival = obs['now']
+        if st == 'ESTABLISHED' and k == 'chunk' and ev['c'] == obs['proto'] and not self.pending.get(ev['c']):
+            # independent of what the agent reports: a chunk of whole frames that contains a KEEPALIVE or an UPDATE (any
+            # UPDATE, an End-of-RIB marker included) is an arrival that restarts the hold timer (RFC 4271 8.2.2, events 26/27)
+            raw = bytes.fromhex(ev['hex'])
+            fr = frames_of(raw)
+            if fr and sum(ln for _, ln, _ in fr) == len(raw) and any((t == 4 and ln == 19) or (t == 2 and upd_in_range(body_)) for t, ln, body_ in fr):
+                self.last_arrival = obs['now']
         if st in ('OPENCONFIRM', 'ESTABLISHED') and self.H is not None and not any(o[0] == 'unmodelled' for o in outs):
             tm = obs['timers']
             if self.H > 0:
@@ -316,6 +338,9 @@ class Monitor(object):
             wl = struct.unpack('!H', body[:2])[0]
             if wl + 4 > len(body):
                 return None
+            al = struct.unpack('!H', body[2 + wl:4 + wl])[0]
+            if wl + 4 + al > len(body):
+                return None     # a length field out of range: Update.parse raises, the message is skipped (C11's exclusion)
             return ('update',)
         if ty == 3:
             if len(body) < 2:
@@ -378,6 +403,13 @@ class Monitor(object):
         def expect_unchanged(cls):
             if ns != ps or ws or closed or any(o[0] == 'connect' for o in outs):
                 bad('an event the RFC says to ignore changed something', cls)
+
+        def restarts_hold(what):
+            # RFC 4271 8.2.2: KeepAliveMsg in OpenConfirm / Established and UpdateMsg in Established restart the HoldTimer
+            # when the negotiated hold time is non-zero
+            if self.H and ns == 'ESTABLISHED' and obs['timers'].get('hold') != [obs['now'] + 3 * self.H]:
+                bad('%s did not restart the hold timer (negotiated %d): timers %r at %d' % (what, self.H, obs['timers'], obs['now']),
+                    'restart-hold')
 
         insess = ps in ('OPENSENT', 'OPENCONFIRM', 'ESTABLISHED')
         if k == 'fire':
@@ -451,13 +483,17 @@ class Monitor(object):
                 if ps == 'OPENCONFIRM':
                     if ns != 'ESTABLISHED' or ws or closed:
                         bad('KEEPALIVE in OpenConfirm must lead to Established', cls)
+                    else:
+                        restarts_hold('KEEPALIVE in OpenConfirm')
                 elif ps == 'ESTABLISHED':
                     expect_unchanged('keepalive')
+                    restarts_hold('KEEPALIVE in Established')
                 else:
                     expect_error(cls, 5, 0)
             elif c0 == 'update':
                 if ps == 'ESTABLISHED':
                     expect_unchanged('update')
+                    restarts_hold('UPDATE in Established')
                     self.check_as_width(ev, b, outs, sim)
                 else:
                     expect_error(cls, 5, 0)
